@@ -2,7 +2,7 @@
    The model decoder is a total function (Coq accepts it), so "returns a term or an error value" is by construction
    once fuel exhaustion — the one artificial outcome — is shown unreachable.  Process-level effects (stack depth,
    allocator requests) are measured on the implementation by the harness; see DESIGN.md. *)
-From EDP Require Import Base.Bytes Term.Term Gen.Tags Gen.Limits Gen.DecoderArms Codec.Decode Codec.DecodeFacts Gen.Prealloc Codec.PreallocFacts Order.Cmp Codec.OffsetFacts Codec.SizeFacts.
+From EDP Require Import Base.Bytes Term.Term Gen.Tags Gen.Limits Gen.DecoderArms Codec.Decode Codec.DecodeFacts Gen.Prealloc Codec.PreallocFacts Order.Cmp Codec.OffsetFacts Codec.SizeFacts Codec.DepthFacts.
 
 (* for every byte string, every oracle and either arm table, decode yields a term, a decode error or trailing data:
    never the model's out-of-fuel value *)
@@ -60,5 +60,19 @@ Proof. exact compressed_message_sized. Qed.
 Example C02_size_example :
   nodes (TTuple [TList [TInt 1; TInt 2]; TMap [(TAtom [97], TBin [1; 2; 3])]; TNil]) = 8%nat.
 Proof. reflexivity. Qed.
+
+(* nesting depth (one stack frame of the recursive reader per level): bounded by the bytes consumed ... *)
+Theorem C02_depth_bounded_by_input : forall cfg arms f bs t r, d_kinsert cfg = map_insert ->
+  parse (with_arms cfg (uncompressed arms)) f bs = POk t r -> (depth t + length r <= length bs)%nat.
+Proof.
+  intros cfg arms f bs t r Hins. exact (depth_bounded_by_input (with_arms cfg (uncompressed arms)) Hins (uncompressed_ok arms) f bs t r).
+Qed.
+
+(* ... and nothing smaller: for every n there is an input of 2n+1 bytes that the reader accepts and whose result nests
+   n+1 deep.  The recorded finding C02-recursion (no depth limit: 20000 levels in 40 KB overflow a 2 MiB stack) is this
+   theorem met with a finite stack; the check replays it on the implementation *)
+Theorem C02_refuted_bounded_depth : forall cfg, d_arms cfg = owned_arms -> forall n,
+  exists bs t, length bs = (2 * n + 1)%nat /\ parse cfg (2 * n + 2) bs = POk t [] /\ depth t = S n.
+Proof. exact depth_grows_with_input. Qed.
 
 Check C02_decode_total : forall cfg data, decode cfg data <> DErr KFuel.
